@@ -293,7 +293,20 @@ func extractDispatch(fi *FuncInfo) (map[types.Object]dispAtom, []dispBranch) {
 					addAtom(as)
 				}
 			}
-			addBranch(s.Cond, s.Pos(), s.Body)
+			body := s.Body
+			// jump-threaded form left by the normaliser: `if c { goto L }; ...; L: { body }`
+			if len(body.List) == 1 {
+				if g, isGoto := body.List[0].(*ast.BranchStmt); isGoto && g.Tok == token.GOTO && g.Label != nil {
+					for _, st2 := range fi.Decl.Body.List {
+						if ls, isL := st2.(*ast.LabeledStmt); isL && ls.Label.Name == g.Label.Name {
+							if blk, isBlk := ls.Stmt.(*ast.BlockStmt); isBlk {
+								body = blk
+							}
+						}
+					}
+				}
+			}
+			addBranch(s.Cond, s.Pos(), body)
 		}
 	}
 	return atoms, branches
